@@ -924,11 +924,28 @@ func ruleM6(c *an.Ctx) {
 			}
 			nCalls++
 			compiled := false
-			for _, r := range an.Referrers(cl) {
-				if rc, ok := r.(*ssa.Call); ok && rc.Call.StaticCallee() == fn && len(rc.Call.Args) > 0 && rc.Call.Args[0] == ssa.Value(cl) {
-					compiled = true
+			var isCompiled func(v ssa.Value, d int) bool
+			isCompiled = func(v ssa.Value, d int) bool {
+				for _, r := range an.Referrers(v) {
+					rc, ok := r.(*ssa.Call)
+					if !ok || rc.Call.StaticCallee() == nil {
+						continue
+					}
+					if rc.Call.StaticCallee() == fn && len(rc.Call.Args) > 0 && rc.Call.Args[0] == v {
+						return true
+					}
+					// handed to a helper of the package that compiles it
+					if h := rc.Call.StaticCallee(); d < 2 && h.Blocks != nil && h.Pkg == fn.Pkg {
+						for i, a := range rc.Call.Args {
+							if a == v && i < len(h.Params) && isCompiled(h.Params[i], d+1) {
+								return true
+							}
+						}
+					}
 				}
+				return false
 			}
+			compiled = isCompiled(cl, 0)
 			c.Check("M6", "callable-outputs-compiled-as-struct@"+an.FnName(caller), cl.Pos(), compiled,
 				"the struct type synthesised from a callable's outputs is handed to StructType.compile (which rejects duplicate out filenames)")
 		}
